@@ -50,6 +50,14 @@ pub fn drive(tr: &mut Tracer, rng: &mut StdRng, thorough: bool) {
             }
         }
     }
+    // zeros (an integer zero obeys the padding limit too) and short integers right at the limit
+    for n in [0usize, 1, 997, 998, 999, 1000, 1001, 1002, 1026] {
+        for sc in [0i64, -3, 2] {
+            prec_events(tr, rng, &dec(false, "0", sc), n, false);
+        }
+        prec_events(tr, rng, &dec(true, "42", 0), n, false);
+        prec_events(tr, rng, &dec(false, "7", -10), n.saturating_sub(10), false);
+    }
     // random: up to 300 digits, scales -1100..400, N in 0..1100, ties, all nines, tiny values
     let n = if thorough { 40000 } else { 6000 };
     for i in 0..n {
